@@ -117,7 +117,10 @@ def exec_stmt(self: Interp, s, st: State):
         try:
             for sc in scs:
                 for i, e in enumerate(sc.ensures):
-                    self.oblige(o.state, self.contract_truth(e, o.state), "A", f"{sc.label}#{i}", s)
+                    g = self.contract_truth(e, o.state)
+                    self.oblige(o.state, g, "A", f"{sc.label}#{i}", s)
+                    if getattr(sc, "lemma", False):
+                        o.state.assume(g)
         finally:
             fr.before = saved
     return outs
@@ -669,6 +672,18 @@ def get_invariant(self: Interp, node, text):
 
 
 def x_For(self: Interp, s: ast.For, st: State):
+    fr = self.frame
+    saved_entry = getattr(fr, "loop_entry", None) if fr is not None else None
+    if fr is not None:
+        fr.loop_entry = st.fork()       # entry(e) in the invariant of THIS loop
+    try:
+        return _x_for(self, s, st)
+    finally:
+        if fr is not None:
+            fr.loop_entry = saved_entry
+
+
+def _x_for(self: Interp, s: ast.For, st: State):
     inv, lid = get_invariant(self, s, ast.unparse(s.iter))
     itv = self.eval(s.iter, st)
     it = make_iter(self, itv, st)
